@@ -683,6 +683,17 @@ def _s_find(ex, st, s, args, kwargs, node, spec):
 
 
 def _s_replace(ex, st, s, args, kwargs, node, spec):
+    if all(isinstance(x, PyConst) and isinstance(x.v, str) and len(x.v) == 1 for x in args[:2]):
+        # single character by single character: exact pointwise semantics
+        ca, cb = ord(args[0].v), ord(args[1].v)
+        cache = ex.cx.__dict__.setdefault("_repl_cache", {})
+        key = (s.arr.get_id(), ca, cb)
+        if key not in cache:
+            arr = fresh("replaced", AII)
+            k = z3.Int("k!rp")
+            ex.cx.axioms.append(z3.ForAll([k], arr[k] == z3.If(s.arr[k] == ca, cb, s.arr[k]), patterns=[arr[k]]))
+            cache[key] = arr
+        return StrV(cache[key], s.n)
     a, b = as_str(args[0]), as_str(args[1])
     fa = z3.Function("STR_REPLACE.arr", AII, I, AII, I, AII, I, AII)
     fn = z3.Function("STR_REPLACE.n", AII, I, AII, I, AII, I, I)
